@@ -53,6 +53,9 @@ def rewrite(e):
     if k == "mcall":
         if rp.show(e[1]) == "self" and not e[3]:
             return e
+        if e[2] in ("max", "min", "saturating_sub") and len(e[3]) == 1:
+            # integer helpers with verified contracts in the Verus prelude
+            return ("call", ("path", [{"max": "max_usize", "min": "min_usize", "saturating_sub": "sat_sub_usize"}[e[2]]]), [rewrite(e[1]), rewrite(e[3][0])])
         raise Undecided("method call in integer slice: %s" % rp.show(e))
     if k == "if":
         return ("if", rewrite(e[1]), rewrite_block(e[2]), rewrite_block(e[3]) if e[3] is not None and e[3][0] == "block" else (rewrite(e[3]) if e[3] else None), 0)
@@ -76,7 +79,7 @@ def is_int_expr(e, known):
     except Undecided:
         return False
     for n in rp.walk(r):
-        if n[0] == "path" and len(n[1]) == 1 and n[1][0] not in known and n[1][0] not in ("self", "gcd_usize", "ceil_div_f32", "floor_div_f32"):
+        if n[0] == "path" and len(n[1]) == 1 and n[1][0] not in known and n[1][0] not in ("self", "gcd_usize", "ceil_div_f32", "floor_div_f32", "max_usize", "min_usize", "sat_sub_usize"):
             return False
         if n[0] == "field":
             if rp.show(n[1]) != "self" or n[2] not in known:
